@@ -63,6 +63,11 @@ func opensslSeeds(c *Ctx) []p7Seed {
 		}
 		cfgs = append(cfgs, osslCfg{2048, [][]string{{"smime"}, {"cms", "-nodetach"}, {"cms"}}[i%3], &vs})
 	}
+	// signer entries WITHOUT signed attributes (RFC 2315 section 9.3: the signature is over the content octets
+	// directly): such blobs have to parse; the property ties success to signed attributes, so they do not verify
+	for _, a := range [][]string{{"smime", "-noattr", "-nodetach"}, {"cms", "-noattr", "-nodetach"}, {"smime", "-noattr"}} {
+		cfgs = append(cfgs, osslCfg{2048, a, nil})
+	}
 	for _, oc := range cfgs {
 		cfg := oc.args
 		k0 := poolKey(c, oc.bits, 0)
@@ -94,7 +99,11 @@ func opensslSeeds(c *Ctx) []p7Seed {
 			name += "/" + strings.SplitN(oc.shape.desc, "/", 3)[1]
 		}
 		ran = append(ran, name)
-		seeds = append(seeds, p7Seed{name, b, right, twin, other, true})
+		noattr := false
+		for _, a := range cfg {
+			noattr = noattr || a == "-noattr"
+		}
+		seeds = append(seeds, p7Seed{name, b, right, twin, other, !noattr})
 	}
 	c.Note("openssl", map[string]interface{}{"path": ossl, "configurations": ran})
 	return seeds
@@ -122,6 +131,16 @@ func cmsShapedSeeds(c *Ctx) []p7Seed {
 						seeds = append(seeds, p7Seed{fmt.Sprintf("cms-shaped/%s/attached=%v/smimecap=%v/certs=%v", sh.desc, attached, smimecap, withCerts), b, right, twin, other, true})
 					}
 				}
+			}
+		}
+	}
+	// signer entries without signed attributes, the signature made directly over the content octets (what
+	// "openssl smime -sign -noattr" emits), content attached and detached
+	for _, sh := range []certShape{certShapes(c)[2], certShapes(c)[9]} {
+		right, twin, other := makeRSACert(k0, sh), makeRSACert(k1, sh), makeRSACert(k1, certShapes(c)[0])
+		for _, attached := range []bool{true, false} {
+			if b := buildCMSOpt(k0, right, []byte("harness-built CMS content"), attached, false, true, time.Now(), true); b != nil {
+				seeds = append(seeds, p7Seed{fmt.Sprintf("cms-shaped/no-signed-attributes/%s/attached=%v", sh.desc, attached), b, right, twin, other, false})
 			}
 		}
 	}
@@ -220,6 +239,11 @@ func buildCMS(key *rsa.PrivateKey, cert *x509.Certificate, content []byte, attac
 
 // buildCMSAt: the same with a given signingTime attribute (UTCTime, so a year in 1950..2049)
 func buildCMSAt(key *rsa.PrivateKey, cert *x509.Certificate, content []byte, attached, smimecap, withCerts bool, signingTime time.Time) []byte {
+	return buildCMSOpt(key, cert, content, attached, smimecap, withCerts, signingTime, false)
+}
+
+// buildCMSOpt: noAttrs leaves the signed attributes out; the signature is then over the content octets (RFC 2315 section 9.3)
+func buildCMSOpt(key *rsa.PrivateKey, cert *x509.Certificate, content []byte, attached, smimecap, withCerts bool, signingTime time.Time, noAttrs bool) []byte {
 	oidData := asn1.ObjectIdentifier{1, 2, 840, 113549, 1, 7, 1}
 	oidSD := asn1.ObjectIdentifier{1, 2, 840, 113549, 1, 7, 2}
 	oidSHA := asn1.ObjectIdentifier{2, 16, 840, 1, 101, 3, 4, 2, 1}
@@ -246,6 +270,9 @@ func buildCMSAt(key *rsa.PrivateKey, cert *x509.Certificate, content []byte, att
 	}
 	signed := append(append([]byte{0x31}, derLen(len(body))...), body...)
 	h := sha256.Sum256(signed)
+	if noAttrs {
+		h = md
+	}
 	sig, err := rsa.SignPKCS1v15(rand.Reader, key, crypto.SHA256, h[:])
 	if err != nil {
 		return nil
@@ -267,6 +294,9 @@ func buildCMSAt(key *rsa.PrivateKey, cert *x509.Certificate, content []byte, att
 		return append(append([]byte{tag}, derLen(len(inner))...), inner...)
 	}
 	si := seq(mustMarshal(1, ""), seq(cert.RawIssuer, mustMarshal(cert.SerialNumber, "")), alg(oidSHA), tagged(0xa0, body), alg(oidRSA), mustMarshal(sig, ""))
+	if noAttrs {
+		si = seq(mustMarshal(1, ""), seq(cert.RawIssuer, mustMarshal(cert.SerialNumber, "")), alg(oidSHA), alg(oidRSA), mustMarshal(sig, ""))
+	}
 	eci := mustMarshal(oidData, "")
 	if attached {
 		eci = append(eci, tagged(0xa0, mustMarshal(content, ""))...)
@@ -285,7 +315,85 @@ func c16Eval(c *Ctx, cs Case) {
 		c16Attrs(c, cs)
 		return
 	}
+	if cs.S("op") == "attrs-history" {
+		c16AttrsHistory(c, cs)
+		return
+	}
 	p7Eval(c, cs, "C16")
+}
+
+// a history of reconstructions: several signatures are parsed, the signed-attribute encoding of each is
+// reconstructed (Attributes.Marshal) in the given order - some more than once - and EVERY result is kept. When the
+// history is over each kept result must (still) be exactly the bytes that were signed in its own signature:
+// a reconstruction is a value of its own, whatever is reconstructed before or after it.
+func c16AttrsHistory(c *Ctx, cs Case) {
+	blobs := strList(cs["blobs"])
+	order := caseInts(cs["order"])
+	c.Count(cs.Key(), true, fmt.Sprintf("C16/attrs-history/%d-signatures/%d-reconstructions", len(blobs), len(order)))
+	type parsedBlob struct {
+		marshal []func() []byte // one per signer entry; nil: the entry has no signed attributes
+		want    [][]byte        // the signed attributes as transmitted, located with encoding/asn1
+		model   []string
+	}
+	var ps []*parsedBlob
+	for _, bh := range blobs {
+		blob := unhx(bh)
+		pb := &parsedBlob{want: transmittedAttrs(blob)}
+		safely(func() {
+			p, err := pkcs7Parse(blob)
+			if err != nil {
+				return
+			}
+			for _, si := range p.SignerInfo {
+				if a := si.AuthenticatedAttributes; a != nil {
+					pb.marshal = append(pb.marshal, a.Marshal)
+				} else {
+					pb.marshal = append(pb.marshal, nil)
+				}
+			}
+		})
+		c.Trace()
+		pb.model = splitAttrs(c.Drv.Ask("p7.attrs", bh, "1"))
+		ps = append(ps, pb)
+	}
+	type kept struct {
+		step, blob, signer int
+		got, atCall        []byte
+	}
+	var held []kept
+	for step, bi := range order {
+		if bi < 0 || bi >= len(ps) {
+			continue
+		}
+		for si, m := range ps[bi].marshal {
+			if m == nil {
+				continue
+			}
+			var got []byte
+			if pan, msg := safely(func() { got = m() }); pan {
+				c.Fail(Failure{Kind: "property", What: "Attributes.Marshal panicked in a history of reconstructions: " + msg, Case: cs, Go: "panic"})
+				return
+			}
+			held = append(held, kept{step, bi, si, got, append([]byte{}, got...)})
+		}
+	}
+	for _, k := range held {
+		pb := ps[k.blob]
+		if k.signer < len(pb.model) && pb.model[k.signer] != "noattrs" && !strings.HasPrefix(pb.model[k.signer], "marshal="+hx(k.atCall)+" ") {
+			c.Fail(Failure{Kind: "tie", What: "Attributes.Marshal in a history of reconstructions: model and implementation disagree", Case: cs, Model: clip(pb.model[k.signer]), Go: clip("marshal=" + hx(k.atCall))})
+		}
+		if k.signer >= len(pb.want) || pb.want[k.signer] == nil {
+			continue
+		}
+		w := pb.want[k.signer]
+		switch {
+		case bytes.Equal(k.got, w):
+		case bytes.Equal(k.atCall, w):
+			c.Fail(Failure{Kind: "property", What: fmt.Sprintf("a reconstructed signed-attribute encoding that was still held changed when later reconstructions were made (reconstruction %d of the history, signature %d): the result is not a value of its own", k.step, k.blob), Case: cs, Go: clip("now=" + hx(k.got)), Spec: clip("as returned and as signed=" + hx(w))})
+		default:
+			c.Fail(Failure{Kind: "property", What: fmt.Sprintf("in a history of reconstructions, reconstructing the signed-attribute encoding from the parsed values does not reproduce the bytes that were signed (reconstruction %d, signature %d)", k.step, k.blob), Case: cs, Go: clip("marshal=" + hx(k.atCall)), Spec: clip("marshal=" + hx(w))})
+		}
+	}
 }
 
 // re-encoding the parsed signed attributes reproduces exactly the bytes that were signed
@@ -312,6 +420,47 @@ func c16Attrs(c *Ctx, cs Case) {
 			c.Fail(Failure{Kind: "property", What: "reconstructing the signed-attribute encoding from the parsed values does not reproduce the bytes that were signed", Case: cs, Go: clip(parts[i]), Spec: clip("marshal=" + hx(w))})
 		}
 	}
+	// "the bytes that were signed", asked of the signature itself: where the signer's certificate is known the
+	// signature value of the entry (located with encoding/asn1) has to be an RSA-SHA256 signature, under that
+	// certificate's key, over the reconstruction the library returns
+	if cd := cs.S("cert"); cd != "" {
+		cert, err := x509.ParseCertificate(unhx(cd))
+		if err != nil {
+			return
+		}
+		pub, ok := cert.PublicKey.(*rsa.PublicKey)
+		if !ok {
+			return
+		}
+		parts := splitAttrs(goObs)
+		for i, si := range stdSigners(blob) {
+			if i >= len(parts) || len(si.Attrs.FullBytes) == 0 || !strings.HasPrefix(parts[i], "marshal=") {
+				continue
+			}
+			if !bytes.Equal(si.IAS.Issuer.FullBytes, cert.RawIssuer) || si.IAS.Serial == nil || si.IAS.Serial.Cmp(cert.SerialNumber) != 0 {
+				continue
+			}
+			m := unhx(strings.TrimPrefix(strings.SplitN(parts[i], " ", 2)[0], "marshal="))
+			h := sha256.Sum256(m)
+			if rsa.VerifyPKCS1v15(pub, crypto.SHA256, h[:], si.Sig) != nil {
+				c.Fail(Failure{Kind: "property", What: "the reconstructed signed-attribute encoding is not what the signer signed: the entry's signature is not a signature by the signer's key over it", Case: cs, Go: clip(parts[i])})
+			}
+		}
+	}
+}
+
+// the signer entries of a blob, located with encoding/asn1
+func stdSigners(blob []byte) []stdSignerInfo {
+	var sd stdSignedData
+	var ci stdContentInfo
+	if rest, err := asn1.Unmarshal(blob, &ci); err == nil && len(rest) == 0 && ci.Type.Equal(asn1.ObjectIdentifier{1, 2, 840, 113549, 1, 7, 2}) {
+		if _, err := asn1.Unmarshal(ci.Content.Bytes, &sd); err != nil {
+			return nil
+		}
+	} else if _, err := asn1.Unmarshal(blob, &sd); err != nil {
+		return nil
+	}
+	return sd.Signers
 }
 
 func c16Gen(c *Ctx) {
@@ -336,16 +485,54 @@ func c16Gen(c *Ctx) {
 			if !s.canVerify && kc.kind == "right" {
 				exp = "parse" // sbsign / sbvarsign artefacts: must parse; whether they verify is decided by C04's oracle
 			}
-			p7Eval(c, Case{"op": "p7", "class": "third-party", "certkind": kc.kind, "expect": exp, "blob": hx(s.blob), "cert": hx(kc.cert.Raw), "seed": s.name}, "C16")
+			// the same question is also asked of ONE parsed object that answers for several certificates in turn: the
+			// signer's certificate after a twin (same issuer and serial, another key) and between two such calls, the
+			// twin / the unrelated certificate after the signer's and between two such calls
+			prev := s.right
+			if kc.kind == "right" {
+				prev = s.twin
+			}
+			p7Eval(c, Case{"op": "p7", "class": "third-party", "certkind": kc.kind, "expect": exp, "blob": hx(s.blob), "cert": hx(kc.cert.Raw), "prevcert": hx(prev.Raw), "seed": s.name}, "C16")
 		}
-		c16Attrs(c, Case{"op": "attrs", "class": "third-party", "blob": hx(s.blob), "seed": s.name})
+		ac := Case{"op": "attrs", "class": "third-party", "blob": hx(s.blob), "seed": s.name}
+		if s.canVerify {
+			ac["cert"] = hx(s.right.Raw)
+		}
+		c16Attrs(c, ac)
 	}
 	c.Note("seeds", names)
+	// histories of reconstructions over several signatures with all results kept: every window of three seeds
+	// (neighbours in the list and one further away, so producers and attribute sets of different sizes meet),
+	// each reconstructed twice in two different orders; thorough: random histories over up to six seeds as well
+	hist := func(idx []int, order []int) {
+		var bl []string
+		var sn []string
+		for _, i := range idx {
+			bl = append(bl, hx(seeds[i].blob))
+			sn = append(sn, seeds[i].name)
+		}
+		c16AttrsHistory(c, Case{"op": "attrs-history", "blobs": bl, "order": intsI(order), "seeds": sn})
+	}
+	for i := range seeds {
+		if n := len(seeds); n >= 3 && c.NFailures() < 6 {
+			hist([]int{i, (i + 1) % n, (i + 7) % n}, []int{0, 1, 2, 0, 2, 1})
+		}
+	}
+	for i := 0; i < c.N(0, 400) && len(seeds) > 0 && c.NFailures() < 6; i++ {
+		var idx, order []int
+		for j := 0; j < 2+c.Rng.Intn(5); j++ {
+			idx = append(idx, c.Rng.Intn(len(seeds)))
+		}
+		for j := 0; j < 2+c.Rng.Intn(12); j++ {
+			order = append(order, c.Rng.Intn(len(idx)))
+		}
+		hist(idx, order)
+	}
 }
 
 func init() {
 	register("C16", &PropDef{
-		Rule:   "OpenSSL smime/cms x {detached, -nodetach} x {-nosmimecap} x {-nocerts} x {-cades} produced at check time when the CLI exists; harness-built CMS SignedData in OpenSSL's shape (DER-sorted attribute SET, S/MIME capabilities on/off, attached/detached, certificates on/off, signer self-signed or issued by a CA, the signer's certificate itself signed with SHA-256, SHA-384 or SHA-512, a hand-encoded multi-valued-RDN name; signer keys of 2048 bits and - OpenSSL smime / cms -nodetach and harness-built - of 2047 and 2049 bits [thorough: also 3001, 4095], i.e. RSA moduli that are not a whole number of bytes long); signer certificates whose validity period stands in every relation to the signed signingTime (covering it, expired a year / a second before it, valid only from a second / a year after it, ending or starting exactly at it, a single instant equal to it, no validity period at all = both dates the zero time, only NotBefore zero; self-signed and CA-issued) for signatures made now [all relations], in 2011 and in 2049 [quick: a third of the relations each], the default 2023..2033 certificate with a signingTime one second before / exactly at / one second after either end and in 1999, and OpenSSL smime / cms signing now with such expired / not yet valid / period-less certificates - validity periods play no part in the property: the signature must verify against the signer's certificate and be rejected for the twin and the unrelated one; the sbsign / sbvarsign artefacts of the repository. Each is parsed and verified against the signer's certificate, a twin (same issuer+serial, other key) and an unrelated certificate, and its signed attributes are re-encoded and compared with the transmitted bytes. Every case is non-trivial; distinct = distinct (blob, certificate).",
+		Rule:   "OpenSSL smime/cms x {detached, -nodetach} x {-nosmimecap} x {-nocerts} x {-cades} produced at check time when the CLI exists, and smime/cms -noattr (no signed attributes: has to parse, need not verify); harness-built CMS SignedData in OpenSSL's shape (DER-sorted attribute SET, S/MIME capabilities on/off, attached/detached, certificates on/off, signer self-signed or issued by a CA, the signer's certificate itself signed with SHA-256, SHA-384 or SHA-512, a hand-encoded multi-valued-RDN name; signer keys of 2048 bits and - OpenSSL smime / cms -nodetach and harness-built - of 2047 and 2049 bits [thorough: also 3001, 4095], i.e. RSA moduli that are not a whole number of bytes long); signer certificates whose validity period stands in every relation to the signed signingTime (covering it, expired a year / a second before it, valid only from a second / a year after it, ending or starting exactly at it, a single instant equal to it, no validity period at all = both dates the zero time, only NotBefore zero; self-signed and CA-issued) for signatures made now [all relations], in 2011 and in 2049 [quick: a third of the relations each], the default 2023..2033 certificate with a signingTime one second before / exactly at / one second after either end and in 1999, and OpenSSL smime / cms signing now with such expired / not yet valid / period-less certificates - validity periods play no part in the property: the signature must verify against the signer's certificate and be rejected for the twin and the unrelated one; the sbsign / sbvarsign artefacts of the repository. Harness-built blobs without signed attributes (signature over the content octets, attached and detached) have to parse. Each is parsed and verified against the signer's certificate, a twin (same issuer+serial, other key) and an unrelated certificate - on a fresh parsed object and on ONE parsed object that answers for several certificates in turn, in both orders (signer's certificate after the twin: Verify(twin), Verify(signer), Verify(twin), Verify(signer); twin and unrelated certificate after the signer's) -, and its signed attributes are re-encoded and compared with the transmitted bytes located with encoding/asn1; where the blob verifies, the entry's signature is checked with crypto/rsa under the signer's key over the re-encoding itself. Histories of reconstructions: for every window of three seeds (two neighbours and one seven places on) the three signatures are parsed, Attributes.Marshal is called on them in the order 0,1,2,0,2,1 with EVERY result kept, and at the end each kept result must still be the bytes signed in its own signature (thorough: 400 random histories over 2-6 seeds and 2-13 reconstructions as well). Every case is non-trivial; distinct = distinct (blob, certificate).",
 		Assume: []string{"which OpenSSL configurations ran is recorded in notes.openssl; nothing depends on the CLI being present"},
 		Eval:   c16Eval, Gen: c16Gen,
 	})
